@@ -10,11 +10,7 @@ open Generated
 def expected : List (String × String) := [
       ("models.py:Task.__init__", "a786e66cf2e789bb"),
       ("models.py:Task.validate_objective_weights", "d992d22ca56f8850"),
-      ("models.py:Task.get_variables", "a0c8e153dcd0f783"),
-      ("models.py:Task.get_bounds", "1e6f0734b913df0f"),
-      ("models.py:Task.correct_solution", "c7cf190ecdfb3f03"),
       ("models.py:Task.empty_solution", "f68c6b2de6b5fac6"),
-      ("models.py:Task.transform_solution", "e684cb9f53b4c02f"),
       ("models.py:ContinuousMultiVariable", "c4386bff7f69db10"),
       ("models.py:DiscreteMultiVariable", "aaef1aca2e3cb577"),
       ("models.py:MultiObjectiveVariable", "ede4a45722344bcb"),
